@@ -135,7 +135,7 @@ IMAGE_SLOTS = ("image-name", "image-in-form", "form-name")
 OTYPES = ["text", "xml", "html"]
 
 BOUNDS = {
-    "quick": "11 slots x 19 hostile strings (image slots x 7 export kinds) x output type text; + xml/html for image-name; + inline image and benign baselines; + 17 late-sentinel cases (files appearing after the ImageWriter exists); + 6 CMap slots x 5 names with CMAP_PATH unset and decoys in the working directory; + CMAP_PATH in {'', '.', relative dir} x 5 slots x 6 names; + 10 symlink-inside-resource-dir cases; + %d names built from the %d code points whose normal/case forms contain path syntax x 4 slots; + %d names over the regex/glob/printf metacharacters x 6 sets of pre-existing NAME/NAME.0/NAME.1 files x 3 same-named exports (3 pages); + image names {., .., empty, x} x {BitsPerComponent, Width, Height, ColorSpace, Filter} x 13 hostile values (names with slashes/dots, strings with path syntax, real, negative, huge, null, array) through the raw export; + 6 output-dir spellings (through a symlink + '..', relative, './', trailing slash) x 2 names x 2 kinds x existing/fresh" % (len(UNICODE_HOSTILE), len(COMPAT), len(META_NAMES)),
+    "quick": "11 slots x 19 hostile strings (image slots x 7 export kinds) x output type text; + xml/html for image-name; + inline image and benign baselines; + 17 late-sentinel cases (files appearing after the ImageWriter exists); + 6 CMap slots x 5 names with CMAP_PATH unset and decoys in the working directory; + CMAP_PATH in {'', '.', relative dir} x 5 slots x 6 names; + 10 symlink-inside-resource-dir cases; + %d names built from the %d code points whose normal/case forms contain path syntax x 4 slots; + %d names over the regex/glob/printf metacharacters x 6 sets of pre-existing NAME/NAME.0/NAME.1 files x 3 same-named exports (3 pages); + image names {., .., empty, x} x {BitsPerComponent, Width, Height, ColorSpace, Filter} x 13 hostile values (names with slashes/dots, strings with path syntax, real, negative, huge, null, array) through the raw export; + ImageWriter reused for 2-3 same-shaped documents (3 names x 3 kinds x 3 pre-sets x 3 shapes); + 21 names of 200..300 bytes (ASCII and multi-byte) x 3 kinds with user files named like every plausible truncation; + 6 output-dir spellings (through a symlink + '..', relative, './', trailing slash) x 2 names x 2 kinds x existing/fresh" % (len(UNICODE_HOSTILE), len(COMPAT), len(META_NAMES)),
     "thorough": "quick + all output types for every image case + all unordered slot pairs x 4x4 traversal strings",
 }
 
@@ -160,6 +160,7 @@ META = {
         "the chosen output directory is os.path.realpath(output_dir) evaluated in the caller's working directory before anything is created",
         "Unicode names: the code points whose NFC/NFD/NFKC/NFKD/casefold/lower/upper form contains '/', '\\', '.' or NUL (enumerated at import with the interpreter's unicodedata) in '..c x', 'cc/ x', '../../x' and absolute arrangements; decoys and sentinels are planted for the normalised spellings too; other confusables (e.g. U+2215 DIVISION SLASH, which no normal form maps to '/') are not generated",
         "uniqueness: k = 3 (thorough 3..4) same-named images on k pages with different pixels, names over the metacharacter alphabet, with each subset of {NAME.ext, NAME.0.ext, NAME.1.ext} pre-existing; judged: pre-existing files byte-identical, no path opened for writing twice in one run, k new files",
+        "the harness tree lives at one path per worker process (<tmp>/verif_c15_p<pid>), re-created for every shard and removed at its end, so that a resource path remembered by the library across shards still denotes the former directory (CMAP_PATH re-pointing is then judged by the cmap_env cases)",
         "late-sentinel cases assemble the extract_text_to_fp pipeline from the public classes (ImageWriter, converter, PDFPageInterpreter) to drop files between writer construction and export",
         "with CMAP_PATH unset, reads under the documented default /usr/share/pdfminer would be allowed (the directory does not exist here)",
         "inline image names are interpreter-generated (id()), not document-controlled; one inline case per export kind checks they stay inside the output dir",
@@ -360,12 +361,12 @@ def build_pdf(slots: List[Tuple[str, str]], kind: str, inline: bool = False, img
     return d.write(cat)
 
 
-def build_repeat_pdf(name: str, kind: str, k: int) -> bytes:
-    """k pages, each with its own image XObject called ``name`` (different pixels on every page)."""
+def build_repeat_pdf(name: str, kind: str, k: int, first: int = 0) -> bytes:
+    """k pages, each with its own image XObject called ``name`` (different pixels on every page; ``first`` shifts them)."""
     d = Doc()
     cat, pages = d.reserve(), d.reserve()
     kids = []
-    for i in range(k):
+    for i in range(first, first + k):
         im = _image_stream(kind)
         if kind == "bmp8gray":
             im.data = zlib.compress(bytes((i * 16 + j) & 255 for j in range(4)))
@@ -400,7 +401,11 @@ def _gz_pickle(obj) -> bytes:
 
 class Tree:
     def __init__(self):
-        self.root = os.path.realpath(tempfile.mkdtemp(prefix="verif_c15_"))
+        # one path per worker process, re-created for every shard and removed when the shard ends: a search path the
+        # library may have remembered from an earlier shard then still names the (former) resource directory
+        self.root = os.path.join(os.path.realpath(tempfile.gettempdir()), "verif_c15_p%d" % os.getpid())
+        shutil.rmtree(self.root, ignore_errors=True)
+        os.mkdir(self.root, 0o700)
         self.cmap = os.path.join(self.root, "a", "b", "cmap")
         self.out = os.path.join(self.root, "a", "b", "out")
         self.abs = os.path.join(self.root, "abs")
@@ -530,6 +535,30 @@ def _extract(pdf: bytes, out: Optional[str], otype: str) -> Optional[str]:
         return type(e).__name__
 
 
+def _extract_reuse(pdfs: List[bytes], out: str, otype: str) -> Optional[str]:
+    """ONE ImageWriter serving several documents one after the other (fresh resource manager and converter each)."""
+    from pdfminer.converter import HTMLConverter, TextConverter, XMLConverter
+    from pdfminer.image import ImageWriter
+    from pdfminer.layout import LAParams
+    from pdfminer.pdfinterp import PDFPageInterpreter, PDFResourceManager
+    from pdfminer.pdfpage import PDFPage
+
+    try:
+        iw = ImageWriter(out)
+        for pdf in pdfs:
+            sink = io.BytesIO()
+            rsrc = PDFResourceManager()
+            conv = {"text": TextConverter, "xml": XMLConverter, "html": HTMLConverter}[otype]
+            device = conv(rsrc, sink, codec="utf-8", laparams=LAParams(), imagewriter=iw)
+            interp = PDFPageInterpreter(rsrc, device)
+            for page in PDFPage.get_pages(io.BytesIO(pdf)):
+                interp.process_page(page)
+            device.close()
+        return None
+    except BaseException as e:  # noqa
+        return type(e).__name__
+
+
 def _extract_late(pdf: bytes, out: str, otype: str, plant) -> Optional[str]:
     """Same pipeline as extract_text_to_fp, assembled from the public classes, so that ``plant()`` can drop files into
     the output directory after the ImageWriter and the converter exist and before the first page is processed."""
@@ -601,7 +630,13 @@ def run_case(case: Dict[str, Any]):
     slots = [(s, hk[4:] if hk.startswith("lit:") else materialise(HOSTILE_D.get(hk, hk), t)) for s, hk in case["slots"]]
     kind, otype, inline = case["kind"], case["otype"], case.get("inline", False)
     repeat = int(case.get("repeat") or 0)
-    pdf = build_repeat_pdf(slots[0][1], kind, repeat) if repeat else build_pdf(
+    reuse = int(case.get("reuse") or 0)  # that many structurally identical documents through ONE ImageWriter
+    pdfs = [build_repeat_pdf(slots[0][1], kind, repeat, first=7 * j) for j in range(reuse)] if reuse else []
+    if reuse:
+        repeat_total = repeat * reuse
+    else:
+        repeat_total = repeat
+    pdf = pdfs[0] if reuse else build_repeat_pdf(slots[0][1], kind, repeat) if repeat else build_pdf(
         slots, kind, inline, (case["img_field"][0], _field_value(tuple(case["img_field"][1]), t.root)) if case.get("img_field") else None)
     cmap_names = [h for s, h in slots if s not in IMAGE_SLOTS and s != "basefont" and s != "simple-encoding"]
     for s, h in slots:
@@ -677,6 +712,22 @@ def run_case(case: Dict[str, Any]):
         for suf in case.get("pre", ()):
             with open(os.path.join(out_real, base_nm + suf + EXT[kind]), "wb") as f:
                 f.write(b"user file " + suf.encode())
+    elif case.get("trunc"):
+        # user files named like every plausible shortening of an over-long name (NAME_MAX is 255 bytes)
+        nm_, ext_ = re.sub(r"[/\\\0]", "_", img_names[0]), EXT[kind]
+        cands = set()
+        for L in (255, 254, 251, 250, 200, 128, 127):
+            for v in (nm_[: L - len(ext_)] + ext_, (nm_ + ext_)[:L], nm_[:L], nm_[:L] + ext_,
+                      nm_.encode("utf-8")[: L - len(ext_)].decode("utf-8", "ignore") + ext_, (nm_ + ext_).encode("utf-8")[:L].decode("utf-8", "ignore")):
+                for w in (v, v[: -len(ext_)] + ".0" + ext_ if v.endswith(ext_) else v + ".0"):
+                    if 0 < len(w.encode("utf-8")) <= 255:
+                        cands.add(w)
+        for w in sorted(cands):
+            try:
+                with open(os.path.join(out_real, w), "wb") as f:
+                    f.write(b"user file " + w.encode("utf-8")[:40])
+            except OSError:
+                pass
     elif not late:
         t.plant_sentinels(img_names, EXT[kind], out_real)
     if case.get("fresh_out"):
@@ -701,7 +752,9 @@ def run_case(case: Dict[str, Any]):
 
     _ARMED[0] = True
     try:
-        if late:
+        if reuse:
+            exc = _extract_reuse(pdfs, outdir_arg, otype)
+        elif late:
             exc = _extract_late(pdf, outdir_arg, otype, plant_late)
         else:
             exc = _extract(pdf, None if case.get("no_export") else outdir_arg, otype)
@@ -807,8 +860,8 @@ def run_case(case: Dict[str, Any]):
                 {"created": p_.replace(t.root, ROOT_TOKEN)}, "a new file exists outside the output directory after processing")
     if repeat and exc is None:
         n_files = len([p_ for p_ in created if not p_.endswith(os.sep) and t.inside(p_, out_real)])
-        if n_files != repeat:
-            add("C15/exports-share-a-file", f"{repeat} exports -> {repeat} new files", {"new_files": sorted(os.path.basename(p_) for p_ in created)},
+        if n_files != repeat_total:
+            add("C15/exports-share-a-file", f"{repeat_total} exports -> {repeat_total} new files", {"new_files": sorted(os.path.basename(p_) for p_ in created)},
                 "fewer new files than exported images: one export replaced another")
     outcome = (tuple(out_abs), exc, len(created))
     info = {"events": len(events), "imports": imports, "planted": planted, "created": len(created), "exception": exc, "pdf": pdf}
@@ -855,6 +908,18 @@ def _cases(tier: str) -> List[Dict[str, Any]]:
                     if fresh:
                         c["fresh_out"] = True
                     cs.append(c)
+    # one ImageWriter reused for structurally identical documents (same object numbers and resource names, other pixels)
+    for nm in ("Im0", "Im+0", "a.b"):
+        for kind in REPEAT_KINDS:
+            for pre in ((), ("",), ("", ".0")):
+                for reuse, k in ((2, 1), (3, 1), (2, 2)):
+                    cs.append({"slots": [("image-name", "lit:" + nm)], "kind": kind, "otype": "text", "repeat": k, "reuse": reuse, "pre": pre})
+    # names at and beyond NAME_MAX, with user files named like every plausible shortening
+    long_names = ["A" * n for n in (200, 250, 251, 252, 253, 254, 255, 256, 257, 258, 259, 260, 300)]
+    long_names += ["\u00e9" * 100, "\u00e9" * 126, "\u00e9" * 128, "\u3042" * 83, "\u3042" * 84, "\u3042" * 86, "B" * 250 + "\u00e9\u00e9\u00e9", "x" * 249 + "/" + "y" * 8]
+    for nm in long_names:
+        for kind in ("bmp1", "jpg", "raw"):
+            cs.append({"slots": [("image-name", "lit:" + nm)], "kind": kind, "otype": "text", "trunc": True})
     # image dictionary entries other than the name that flow into the file name (the '.BITS.WxH.img' extension of raw exports)
     for nm in (".", "..", "", "x"):
         for fld in IMG_FIELDS:
@@ -942,7 +1007,7 @@ def replay(case):
          "fresh_out": case.get("fresh_out", False), "no_export": case.get("no_export", False),
          "late_sentinels": case.get("late_sentinels", False), "cwd_mode": case.get("cwd_mode", False),
          "cmap_env": case.get("cmap_env"), "symlinks": case.get("symlinks"), "out_spelling": case.get("out_spelling"),
-         "repeat": case.get("repeat"), "pre": tuple(case.get("pre") or ()),
+         "repeat": case.get("repeat"), "pre": tuple(case.get("pre") or ()), "reuse": case.get("reuse"), "trunc": case.get("trunc"),
          "img_field": (case["img_field"][0], tuple(case["img_field"][1])) if case.get("img_field") else None}
     try:
         viol, _, _ = run_case(c)
